@@ -10,6 +10,7 @@ Executes regex bytecode with:
 
 from typing import List, Tuple, Optional, Callable
 from .opcodes import RegexOpCode as Op
+from ..errors import MemoryLimitError
 
 
 class RegexTimeoutError(Exception):
@@ -18,10 +19,15 @@ class RegexTimeoutError(Exception):
     pass
 
 
-class RegexStackOverflow(Exception):
-    """Raised when regex stack limit is exceeded."""
+class RegexStackOverflow(MemoryLimitError):
+    """Raised when regex stack limit is exceeded.
 
-    pass
+    Part of the JSError family (a memory budget was exhausted), so it never
+    reaches the embedder as a foreign exception.
+    """
+
+    def __init__(self, message: str = "Regex stack overflow"):
+        super().__init__(message)
 
 
 class MatchResult:
